@@ -51,7 +51,10 @@ func parsePat1(s string) (*pat, string) {
 	s = s[i+1:]
 	// name: up to ',' or ')' unless it starts a nested pattern (contains '(' before ',' / ')') or is _ / $ / ...
 	j := 0
-	for j < len(s) && s[j] != ',' && s[j] != ')' && s[j] != '(' {
+	for j < len(s) && s[j] != ',' && s[j] != '(' {
+		if s[j] == ')' && !(j+1 < len(s) && s[j+1] == '.') {
+			break
+		}
 		j++
 	}
 	first := strings.TrimSpace(s[:j])
